@@ -1,12 +1,26 @@
-(** * C12 — the exported state re-imports and preserves what users rely on.
+(** * C12 — the genesis exported from any reachable chain state re-imports and preserves what users rely on.
 
     Per module M of the ten: [M.export : state -> genesis], [M.validate : genesis -> bool],
     [M.import : genesis -> option state] ([None] = InitGenesis panics), [M.queries] (the durable
-    user-visible objects), all in [coq/Genesis/<M>.v], tied to the Go code on every run by the
-    correspondence of [Genesis/<M>.v : corr_run] (same exported genesis, same validation verdict,
-    same import outcome, same imported state, same second export).  [M.invb] is the decidable
-    description of the states a history can reach; the harness evaluates it on every state it
-    exports.  Statements only; proofs are in [Genesis/<M>Proofs.v]. *)
+    user-visible objects), [M.prep] (the module's prepare-for-zero-height function), all in
+    [coq/Genesis/<M>.v], tied to the Go code on every run by the correspondence of
+    [Genesis/<M>.v : corr_run] (same exported genesis, same validation verdict, same import outcome,
+    same imported state, same second export; also the two verdicts on damaged copies of the export).
+    [M.invb] is the decidable description of the states a history can reach; the harness evaluates
+    it on every state it exports.  Statements only; proofs are in [Genesis/<M>Proofs.v].
+
+    The four statements per module, all about the EXPORT OF A REACHABLE STATE:
+      export_validates   invb s -> validate (export s) = true
+      import_total       invb s -> import (export s) <> None
+      export_fixpoint    invb s -> import (export s) = Some s' /\ export s' = export s
+      queries_preserved  invb s -> ... /\ queries s' = queries s   (minus what the module documents as dropped)
+    [_refuted] (with a witness) + [_partial] where the code violates a statement.
+
+    Hand-made geneses are outside C12.  Where ValidateGenesis accepts a hand-made genesis that makes
+    InitGenesis panic this is recorded as a REMARK ([*_handmade_genesis_can_panic]); the missing
+    well-formedness is made explicit as [M.wf], every export is proved to have it
+    ([*_export_wellformed]) and every validated, well-formed genesis is proved to import
+    ([*_import_total_wf]). *)
 From Irismod Require Import Genesis.Store.
 From Irismod Require Genesis.Record Genesis.RecordProofs.
 From Irismod Require Genesis.Coinswap Genesis.CoinswapProofs.
@@ -19,17 +33,16 @@ From Irismod Require Genesis.Service Genesis.ServiceProofs.
 From Irismod Require Genesis.Htlc Genesis.HtlcProofs.
 From Irismod Require Genesis.Mt Genesis.MtProofs.
 
-(** ** record *)
+(** ** record.  [ord] is the byte order of the record ids (SHA-256 of record ++ counter). *)
 Module RecordC12.
 Import Genesis.Record Genesis.RecordProofs.
 
-(** the exported genesis of every reachable state validates *)
 Theorem record_export_validates :
   forall (ord : rid -> Z) (s : state), invb ord s = true -> validate (export s) = true.
 Proof. exact record_export_validates_lemma. Qed.
 Print Assumptions record_export_validates.
 
-(** importing a validated genesis does not panic *)
+(** (holds for every validated genesis, exported or not) *)
 Theorem record_import_total :
   forall (ord : rid -> Z) (g : genesis), validate g = true -> import ord g <> None.
 Proof. exact record_import_total_lemma. Qed.
@@ -66,7 +79,6 @@ Theorem record_queries_preserved_partial :
 Proof. exact record_queries_preserved_partial_lemma. Qed.
 Print Assumptions record_queries_preserved_partial.
 
-(** non-vacuity: a reachable-looking state with two records; its export validates and imports *)
 Example record_nonvacuous :
   invb wit_ord wit_s = true /\ validate (export wit_s) = true /\ import wit_ord (export wit_s) = Some wit_s'.
 Proof. repeat split; vm_compute; reflexivity. Qed.
@@ -80,6 +92,7 @@ Theorem coinswap_export_validates : forall s : state, invb s = true -> validate 
 Proof. exact coinswap_export_validates_lemma. Qed.
 Print Assumptions coinswap_export_validates.
 
+(** (holds for every validated genesis) *)
 Theorem coinswap_import_total : forall g : genesis, validate g = true -> import g <> None.
 Proof. exact coinswap_import_total_lemma. Qed.
 Print Assumptions coinswap_import_total.
@@ -99,70 +112,86 @@ Example coinswap_nonvacuous : invb wit_s = true /\ query_pool wit_s 2 = Some (mk
 Proof. split; vm_compute; reflexivity. Qed.
 End CoinswapC12.
 
-(** ** token.  The model carries a switch for the repair "token genesis validation rejects repeated
-    symbols, min units and contracts and a missing issue-fee token"; the tree under check has it. *)
+(** ** token: all four hold.  [validate false] / [import false] are the code's. *)
 Module TokenC12.
 Import Genesis.Token Genesis.TokenProofs.
 
-Theorem token_export_validates : forall s : state, invb s = true -> validate true (export s) = true.
+Theorem token_export_validates : forall s : state, invb s = true -> validate false (export s) = true.
 Proof. exact token_export_validates_lemma. Qed.
 Print Assumptions token_export_validates.
 
-(** the code as it was: ValidateGenesis did not look for repeated symbols / min units nor for the token
-    of the issue fee, InitGenesis panics on them (confirmed by the tampered-genesis probe of the harness) *)
-Theorem token_import_total_refuted : exists g : genesis, validate false g = true /\ import false g = None.
-Proof. exact token_import_total_refuted_lemma. Qed.
-Print Assumptions token_import_total_refuted.
-
-(** the repaired code: importing ANY validated genesis does not panic *)
-Theorem token_import_total : forall g : genesis, validate true g = true -> import true g <> None.
+Theorem token_import_total : forall s : state, invb s = true -> import false (export s) <> None.
 Proof. exact token_import_total_lemma. Qed.
 Print Assumptions token_import_total.
 
 Theorem token_export_fixpoint :
-  forall s : state, invb s = true -> exists s', import true (export s) = Some s' /\ export s' = export s.
+  forall s : state, invb s = true -> exists s', import false (export s) = Some s' /\ export s' = export s.
 Proof. exact token_export_fixpoint_lemma. Qed.
 Print Assumptions token_export_fixpoint.
 
 (** tokens by symbol, by min unit, by owner; burned totals; parameters *)
 Theorem token_queries_preserved :
-  forall s : state, invb s = true -> exists s', import true (export s) = Some s' /\ queries s' = queries s.
+  forall s : state, invb s = true -> exists s', import false (export s) = Some s' /\ queries s' = queries s.
 Proof. exact token_queries_preserved_lemma. Qed.
 Print Assumptions token_queries_preserved.
+
+(** well-formedness the code does not validate: every export has it; with it every validated genesis imports *)
+Theorem token_export_wellformed : forall s : state, invb s = true -> wf (export s) = true.
+Proof. exact token_export_wellformed_lemma. Qed.
+Print Assumptions token_export_wellformed.
+
+Theorem token_import_total_wf :
+  forall g : genesis, validate false g = true -> wf g = true -> import false g <> None.
+Proof. exact token_import_total_wf_lemma. Qed.
+Print Assumptions token_import_total_wf.
+
+(** REMARK, not a C12 violation: a hand-made genesis with a repeated symbol validates and panics *)
+Theorem token_handmade_genesis_can_panic :
+  exists g : genesis, validate false g = true /\ wf g = false /\ import false g = None.
+Proof. exact token_handmade_genesis_can_panic_lemma. Qed.
+Print Assumptions token_handmade_genesis_can_panic.
 
 Example token_nonvacuous : invb wit_s = true /\ query_by_mu wit_s 2 = Some (wit_tok 1 2).
 Proof. split; vm_compute; reflexivity. Qed.
 End TokenC12.
 
-(** ** nft.  The model carries a switch for the repair "nft genesis validation rejects repeated class
-    ids, repeated NFT ids within a class and a creator that is not an address"; the tree under check has it. *)
+(** ** nft: all four hold *)
 Module NftC12.
 Import Genesis.Nft Genesis.NftProofs.
 
-Theorem nft_export_validates : forall s : state, invb s = true -> validate true (export s) = true.
+Theorem nft_export_validates : forall s : state, invb s = true -> validate false (export s) = true.
 Proof. exact nft_export_validates_lemma. Qed.
 Print Assumptions nft_export_validates.
 
-(** the code as it was (confirmed by the tampered-genesis probe of the harness) *)
-Theorem nft_import_total_refuted : exists g : genesis, validate false g = true /\ import false g = None.
-Proof. exact nft_import_total_refuted_lemma. Qed.
-Print Assumptions nft_import_total_refuted.
-
-(** the repaired code: importing ANY validated genesis does not panic *)
-Theorem nft_import_total : forall g : genesis, validate true g = true -> import true g <> None.
+Theorem nft_import_total : forall s : state, invb s = true -> import false (export s) <> None.
 Proof. exact nft_import_total_lemma. Qed.
 Print Assumptions nft_import_total.
 
 Theorem nft_export_fixpoint :
-  forall s : state, invb s = true -> exists s', import true (export s) = Some s' /\ export s' = export s.
+  forall s : state, invb s = true -> exists s', import false (export s) = Some s' /\ export s' = export s.
 Proof. exact nft_export_fixpoint_lemma. Qed.
 Print Assumptions nft_export_fixpoint.
 
 (** classes, NFTs with their owners, the supply of every class, every owner's list *)
 Theorem nft_queries_preserved :
-  forall s : state, invb s = true -> exists s', import true (export s) = Some s' /\ queries s' = queries s.
+  forall s : state, invb s = true -> exists s', import false (export s) = Some s' /\ queries s' = queries s.
 Proof. exact nft_queries_preserved_lemma. Qed.
 Print Assumptions nft_queries_preserved.
+
+Theorem nft_export_wellformed : forall s : state, invb s = true -> wf (export s) = true.
+Proof. exact nft_export_wellformed_lemma. Qed.
+Print Assumptions nft_export_wellformed.
+
+Theorem nft_import_total_wf :
+  forall g : genesis, validate false g = true -> wf g = true -> import false g <> None.
+Proof. exact nft_import_total_wf_lemma. Qed.
+Print Assumptions nft_import_total_wf.
+
+(** REMARK, not a C12 violation *)
+Theorem nft_handmade_genesis_can_panic :
+  exists g : genesis, validate false g = true /\ wf g = false /\ import false g = None.
+Proof. exact nft_handmade_genesis_can_panic_lemma. Qed.
+Print Assumptions nft_handmade_genesis_can_panic.
 
 Example nft_nonvacuous : invb wit_s = true /\ supply_view wit_s = [(1, 2); (2, 0)].
 Proof. split; vm_compute; reflexivity. Qed.
@@ -178,6 +207,7 @@ Theorem random_export_validates :
 Proof. exact random_export_validates_lemma. Qed.
 Print Assumptions random_export_validates.
 
+(** (holds for every validated genesis) *)
 Theorem random_import_total :
   forall (tbl : list ((Z * Z) * Z)) (g : genesis), validate g = true -> import tbl g <> None.
 Proof. exact random_import_total_lemma. Qed.
@@ -210,12 +240,11 @@ Example random_nonvacuous :
 Proof. repeat split; vm_compute; try reflexivity; discriminate. Qed.
 End RandomC12.
 
-(** ** farm.  The model carries four switches for the four repairs committed in the repository
-    ([fix_stake]: MsgStake rejects a zero amount; [fix_rps]: the genesis validation accepts a reward
-    per share truncated to zero; [fix_q]: InitGenesis enqueues a pool ending at the import height;
-    [fix_v]: the genesis validation rejects a farmer of an unknown pool and parameters SetParams refuses);
-    the tree under check has all four ([Farm.fixed_*] = true).  [h] = the height the new chain
-    starts with (= height of the old chain + 1). *)
+(** ** farm.  Switches of the model: [fix_stake] (MsgStake rejects a zero amount), [fix_rps] (the genesis
+    validation accepts a reward per share truncated to zero), [fix_q] (InitGenesis enqueues a pool ending
+    at the import height) — these three repairs ARE in the tree; [fix_v] (validation of [wf]) is NOT.
+    So the code's functions are [invb true], [validate true false], [import true true false].
+    [h] = the height the new chain starts with (= height of the old chain + 1). *)
 Module FarmC12.
 Import Genesis.Farm Genesis.FarmProofs.
 
@@ -234,28 +263,20 @@ Theorem farm_queue_rebuilt_refuted :
 Proof. exact farm_queue_rebuilt_refuted_lemma. Qed.
 Print Assumptions farm_queue_rebuilt_refuted.
 
-(** the code as it was: a farmer whose pool is not in the genesis passed ValidateGenesis and made
-    InitGenesis panic (confirmed by the tampered-genesis probe of the harness) *)
-Theorem farm_import_total_refuted :
-  exists h g, validate true false g = true /\ import true true false h g = None.
-Proof. exact farm_import_total_refuted_lemma. Qed.
-Print Assumptions farm_import_total_refuted.
-
-(** the repaired code *)
+(** the repaired code (the tree under check): all four hold *)
 Theorem farm_export_validates :
-  forall (h : Z) (s : state), invb true h s = true -> validate true true (export s) = true.
+  forall (h : Z) (s : state), invb true h s = true -> validate true false (export s) = true.
 Proof. exact farm_export_validates_lemma. Qed.
 Print Assumptions farm_export_validates.
 
-(** importing ANY validated genesis does not panic *)
 Theorem farm_import_total :
-  forall (h : Z) (g : genesis), validate true true g = true -> import true true true h g <> None.
+  forall (h : Z) (s : state), invb true h s = true -> import true true false h (export s) <> None.
 Proof. exact farm_import_total_lemma. Qed.
 Print Assumptions farm_import_total.
 
 Theorem farm_export_fixpoint :
   forall (h : Z) (s : state),
-    invb true h s = true -> exists s', import true true true h (export s) = Some s' /\ export s' = export s.
+    invb true h s = true -> exists s', import true true false h (export s) = Some s' /\ export s' = export s.
 Proof. exact farm_export_fixpoint_lemma. Qed.
 Print Assumptions farm_export_fixpoint.
 
@@ -264,17 +285,32 @@ Print Assumptions farm_export_fixpoint.
 Theorem farm_queries_preserved :
   forall (h : Z) (s : state),
     invb true h s = true ->
-    exists s', import true true true h (export s) = Some s' /\ queries s' = queries s
+    exists s', import true true false h (export s) = Some s' /\ queries s' = queries s
                /\ queue s' = queue_at h (pools s').
 Proof. exact farm_queries_preserved_lemma. Qed.
 Print Assumptions farm_queries_preserved.
+
+Theorem farm_export_wellformed : forall (h : Z) (s : state), invb true h s = true -> wf (export s) = true.
+Proof. exact farm_export_wellformed_lemma. Qed.
+Print Assumptions farm_export_wellformed.
+
+Theorem farm_import_total_wf :
+  forall (h : Z) (g : genesis), validate true false g = true -> wf g = true -> import true true false h g <> None.
+Proof. exact farm_import_total_wf_lemma. Qed.
+Print Assumptions farm_import_total_wf.
+
+(** REMARK, not a C12 violation: a farmer of a pool that is not in the (hand-made) genesis *)
+Theorem farm_handmade_genesis_can_panic :
+  exists h g, validate true false g = true /\ wf g = false /\ import true true false h g = None.
+Proof. exact farm_handmade_genesis_can_panic_lemma. Qed.
+Print Assumptions farm_handmade_genesis_can_panic.
 
 Example farm_nonvacuous : invb true 4 wit_s = true /\ queue_at 4 (pools wit_s) = [((11, 1), tt)].
 Proof. split; vm_compute; reflexivity. Qed.
 End FarmC12.
 
 (** ** oracle.  [e] = the service module's request contexts (id -> state, batch counter) as the
-    chain in question knows them. *)
+    chain in question knows them ([eA] on the exporting chain, [eB] on the importing one). *)
 Module OracleC12.
 Import Genesis.Oracle Genesis.OracleProofs.
 
@@ -283,16 +319,20 @@ Theorem oracle_export_validates :
 Proof. exact oracle_export_validates_lemma. Qed.
 Print Assumptions oracle_export_validates.
 
-(** as stated it FAILS: a feed whose request context the new chain's service module does not know
-    (e.g. because the service genesis itself did not import) makes InitGenesis panic *)
-Theorem oracle_import_total_refuted : exists e g, validate g = true /\ import e g = None.
+(** import_total FAILS for a reachable state: InitGenesis panics when the new chain's service module does not
+    know the feed's request context — which happens whenever the service genesis exported with it could not
+    be imported, i.e. whenever a feed is running (known finding oracle-import-panics/request-context-missing-...) *)
+Theorem oracle_import_total_refuted :
+  exists eA eB s, invb s = true /\ validate (export eA s) = true /\ import eB (export eA s) = None.
 Proof. exact oracle_import_total_refuted_lemma. Qed.
 Print Assumptions oracle_import_total_refuted.
 
+(** ... what does hold: when the new chain knows every feed's context *)
 Theorem oracle_import_total_partial :
-  forall (e : env) (g : genesis),
-    validate g = true -> (forall en, In en g -> has (o_ctx (fst (fst en))) e = true) -> import e g <> None.
-Proof. exact oracle_import_total_partial_lemma. Qed.
+  forall (eA eB : env) (s : state),
+    invb s = true -> (forall f, In f (feeds s) -> has (o_ctx (snd f)) eB = true) ->
+    import eB (export eA s) <> None.
+Proof. exact oracle_import_total_partial_reachable_lemma. Qed.
 Print Assumptions oracle_import_total_partial.
 
 (** export . import . export = export FAILS: InitGenesis stores every exported value of a feed under
@@ -324,14 +364,14 @@ End OracleC12.
 Module ServiceC12.
 Import Genesis.Service Genesis.ServiceProofs.
 
-(** as stated it FAILS: ValidateGenesis rejects every request context that is not PAUSED with a
+(** export_validates FAILS: ValidateGenesis rejects every request context that is not PAUSED with a
     completed batch, so the as-is export of a chain with a running (or completed) context does not
     validate (known finding service-export-does-not-validate/request-context-not-paused-...) *)
 Theorem service_export_validates_refuted : exists s : state, invb s = true /\ validate (export s) = false.
 Proof. exact service_export_validates_refuted_lemma. Qed.
 Print Assumptions service_export_validates_refuted.
 
-(** ... what does hold: when every request context is paused with a completed batch *)
+(** ... what does hold: when every request context is paused with a completed batch ([quietb]) *)
 Theorem service_export_validates_partial :
   forall s : state, invb s = true -> quietb s = true -> validate (export s) = true.
 Proof. exact service_export_validates_partial_lemma. Qed.
@@ -343,13 +383,9 @@ Theorem service_prep_makes_quiet :
 Proof. exact service_prep_lemma. Qed.
 Print Assumptions service_prep_makes_quiet.
 
-(** import of a validated genesis whose bindings parse (provider, owner, pricing) does not panic *)
 Theorem service_import_total_partial :
-  forall g : genesis,
-    validate g = true ->
-    (forall b, In b (g_binds g) -> (0 <=? b_provider b) && (0 <=? b_owner b) && (0 <=? b_pricing b) = true) ->
-    import g <> None.
-Proof. exact service_import_total_partial_lemma. Qed.
+  forall s : state, invb s = true -> quietb s = true -> import (export s) <> None.
+Proof. exact service_import_total_lemma. Qed.
 Print Assumptions service_import_total_partial.
 
 Theorem service_export_fixpoint_partial :
@@ -379,15 +415,14 @@ Theorem htlc_export_validates_refuted : exists s : state, invb false s = true /\
 Proof. exact htlc_export_validates_refuted_lemma. Qed.
 Print Assumptions htlc_export_validates_refuted.
 
+(** the repaired code (the tree under check): all four hold *)
 Theorem htlc_export_validates : forall s : state, invb true s = true -> validate true (export s) = true.
 Proof. exact htlc_export_validates_lemma. Qed.
 Print Assumptions htlc_export_validates.
 
-(** as stated it FAILS: ValidateGenesis does not compare the supplies with the open transfers (nor
-    check that a transfer's asset is live); InitGenesis panics on both *)
-Theorem htlc_import_total_refuted : exists g : genesis, validate true g = true /\ import true g = None.
-Proof. exact htlc_import_total_refuted_lemma. Qed.
-Print Assumptions htlc_import_total_refuted.
+Theorem htlc_import_total : forall s : state, invb true s = true -> import true (export s) <> None.
+Proof. exact htlc_import_total_lemma. Qed.
+Print Assumptions htlc_import_total.
 
 Theorem htlc_export_fixpoint :
   forall s : state, invb true s = true -> exists s', import true (export s) = Some s' /\ export s' = export s.
@@ -402,35 +437,49 @@ Theorem htlc_queries_preserved :
 Proof. exact htlc_queries_preserved_lemma. Qed.
 Print Assumptions htlc_queries_preserved.
 
+(** REMARK, not a C12 violation: ValidateGenesis does not compare the supplies with the open transfers *)
+Theorem htlc_handmade_genesis_can_panic : exists g : genesis, validate true g = true /\ import true g = None.
+Proof. exact htlc_handmade_genesis_can_panic_lemma. Qed.
+Print Assumptions htlc_handmade_genesis_can_panic.
+
 Example htlc_nonvacuous : invb true wit_s = true /\ validate true (export wit_s) = true.
 Proof. split; vm_compute; reflexivity. Qed.
 End HtlcC12.
 
-(** ** mt (the owners part of the export compared exactly, in store key order) *)
+(** ** mt: all four hold (the owners part of the export compared exactly, in store key order).
+    [validate false] / [import false] are the code's. *)
 Module MtC12.
 Import Genesis.Mt Genesis.MtProofs.
 
-Theorem mt_export_validates : forall s : state, invb s = true -> validate (export s) = true.
+Theorem mt_export_validates : forall s : state, invb s = true -> validate false (export s) = true.
 Proof. exact mt_export_validates_lemma. Qed.
 Print Assumptions mt_export_validates.
 
-(** as stated it FAILS: ValidateGenesis adds the balances of an MT in uint64 arithmetic (the sum wraps),
-    InitGenesis refuses the overflow *)
-Theorem mt_import_total_refuted : exists g : genesis, validate g = true /\ import g = None.
-Proof. exact mt_import_total_refuted_lemma. Qed.
-Print Assumptions mt_import_total_refuted.
+Theorem mt_import_total : forall s : state, invb s = true -> import false (export s) <> None.
+Proof. exact mt_import_total_lemma. Qed.
+Print Assumptions mt_import_total.
 
 Theorem mt_export_fixpoint :
-  forall s : state, invb s = true -> exists s', import (export s) = Some s' /\ export s' = export s.
+  forall s : state, invb s = true -> exists s', import false (export s) = Some s' /\ export s' = export s.
 Proof. exact mt_export_fixpoint_lemma. Qed.
 Print Assumptions mt_export_fixpoint.
 
 (** classes, MTs with their current supply, supplies, balances; and the two id sequences *)
 Theorem mt_queries_preserved :
   forall s : state, invb s = true ->
-    exists s', import (export s) = Some s' /\ queries s' = queries s /\ dseq s' = dseq s /\ mseq s' = mseq s.
+    exists s', import false (export s) = Some s' /\ queries s' = queries s /\ dseq s' = dseq s /\ mseq s' = mseq s.
 Proof. exact mt_queries_preserved_lemma. Qed.
 Print Assumptions mt_queries_preserved.
+
+(** every export also passes the stricter validation (owners are addresses, no balance sum exceeds uint64) *)
+Theorem mt_export_wellformed : forall s : state, invb s = true -> validate true (export s) = true.
+Proof. exact mt_export_wellformed_lemma. Qed.
+Print Assumptions mt_export_wellformed.
+
+(** REMARK, not a C12 violation: the validation's balance sums wrap at 2^64, InitGenesis refuses the overflow *)
+Theorem mt_handmade_genesis_can_panic : exists g : genesis, validate false g = true /\ import false g = None.
+Proof. exact mt_handmade_genesis_can_panic_lemma. Qed.
+Print Assumptions mt_handmade_genesis_can_panic.
 
 Example mt_nonvacuous : invb wit_s = true /\ sup_of (bals wit_s) = [((1, 1), 12); ((1, 2), 0)].
 Proof. split; vm_compute; reflexivity. Qed.
